@@ -73,6 +73,7 @@ func verifChoice(name string, n int) int {
 	return v
 }
 func verifItoa(v int64) string { return strconv.FormatInt(v, 10) }
+func verifFtoa(f float64) string { return strconv.FormatFloat(f, 'g', -1, 64) }
 
 func verifAssume(c bool) {
 	if !c {
